@@ -215,12 +215,15 @@ func (w *World) genVCs(fn *ssa.Function, useH bool, dropped, hcount map[string]b
 				return base(name, old)
 			}
 		}
+		for _, u := range ct.Uses {
+			c.assume(rr, c.lemmaInstance(penv, u.Expr, nil))
+		}
 		for k, en := range ct.Ensures {
 			if en.Tier == "thorough" && tier != "thorough" {
 				continue
 			}
 			f := c.evalBool(penv, en.Expr, en.Text)
-			if cj := splitAnd(f); len(cj) > 1 && len(cj) <= 80 {
+			if cj := splitDeep(f); len(cj) > 1 && len(cj) <= 80 {
 				// a top-level conjunction is split so that the failing member is named and gets its own model
 				for j, g := range cj {
 					c.obligeProps("ensures", fmt.Sprintf("%d.%d", k, j), rr, g, fn.Pos(), fmt.Sprintf("conjunct %d of: %s", j, en.Text), en.Props)
@@ -251,6 +254,42 @@ type frameItem struct {
 // frameItems lists every component known in st with its modifiable locations according to the contract's `modifies`.
 // ok is false when the contract modifies `*`.
 func (c *Ctx) frameItems(ct *Contract, names calleeNames, args []Val, st *State) (items []frameItem, ok bool) {
+	items, ok = c.frameItems0(ct, names, args, st)
+	if !ok || !c.frameLocals || len(c.localObjs) == 0 {
+		return
+	}
+	// loop frames: the function's own address-taken locals (objects allocated after entry) may change freely
+	for i := range items {
+		if items[i].whole {
+			continue
+		}
+		for _, r0 := range c.localObjs {
+			// never exempt an object that existed at entry (a callee result that is fresh only on some paths is
+			// unconstrained on the others): guarded location, the nil object otherwise
+			r := "(ite (> " + r0 + " top0) " + r0 + " 0)"
+			if items[i].isMem {
+				items[i].locs = append(items[i].locs, "(* 4096 "+r+")")
+				for _, k := range arrFieldIdList() {
+					items[i].locs = append(items[i].locs, fmt.Sprintf("(+ (* 4096 %s) %d)", r, k))
+				}
+			} else {
+				items[i].locs = append(items[i].locs, r)
+			}
+		}
+	}
+	return
+}
+
+func arrFieldIdList() []int {
+	var ks []int
+	for _, k := range arrFieldIds {
+		ks = append(ks, k)
+	}
+	sort.Ints(ks)
+	return ks
+}
+
+func (c *Ctx) frameItems0(ct *Contract, names calleeNames, args []Val, st *State) (items []frameItem, ok bool) {
 	env := &CEnv{c: c, st: c.entryState, old: c.entryState, lookup: mkLookup(names, args, nil), pkg: names.pkg}
 	var locs []modLoc
 	for _, m := range ct.Modifies {
@@ -262,8 +301,17 @@ func (c *Ctx) frameItems(ct *Contract, names calleeNames, args []Val, st *State)
 	}
 	c.touchAll(st)
 	c.touchAll(c.entryState)
+	foreign := ""
+	for _, l := range locs {
+		if l.foreign != "" {
+			foreign = l.foreign
+		}
+	}
 	for _, k := range sortedKeys(st.heap) {
 		it := frameItem{key: k, post: st.heap[k]}
+		if foreign != "" && !ownedKey(k, foreign) && !(strings.HasPrefix(k, "ghost.const.") || k == "ghost.lim" || k == "ghost.sid" || k == "ghost.bsize" || k == "ghost.data") {
+			it.whole = true
+		}
 		pre, okp := c.entryState.heap[k]
 		if !okp {
 			pre = c.defName(c.entryState, k)
@@ -293,6 +341,9 @@ func (c *Ctx) frameItems(ct *Contract, names calleeNames, args []Val, st *State)
 	}
 	for _, k := range sortedKeys(st.mem) {
 		it := frameItem{key: k, isMem: true, post: st.mem[k]}
+		if foreign != "" && !ownedKey(k, foreign) {
+			it.whole = true
+		}
 		pre, okp := c.entryState.mem[k]
 		if !okp {
 			pre = c.defName(c.entryState, "M:"+k)
@@ -369,10 +420,11 @@ func (c *Ctx) frameCond(it frameItem, allRefs bool) string {
 		}
 		return fmt.Sprintf("(=> %s (= (select %s %s) (select %s %s)))", bound, it.post, rk, exp, rk)
 	}
+	// reference 0 is the nil object: its "fields" are a modelling convention, not program state
 	rk := c.fresh("frk", "Int")
-	bound := fmt.Sprintf("(and (>= %s 0) (<= %s top0))", rk, rk)
+	bound := fmt.Sprintf("(and (>= %s 1) (<= %s top0))", rk, rk)
 	if allRefs {
-		bound = fmt.Sprintf("(and (>= %s 0) (<= %s %s))", rk, rk, c.frameTop)
+		bound = fmt.Sprintf("(and (>= %s 1) (<= %s %s))", rk, rk, c.frameTop)
 	}
 	return fmt.Sprintf("(=> %s (= (select %s %s) (select %s %s)))", bound, it.post, rk, exp, rk)
 }
@@ -440,8 +492,12 @@ func (c *Ctx) groupedFrame(kind, detailPfx string, ct *Contract, names calleeNam
 // locations by "entry component updated at those locations with fresh values": the frame invariant is built into the
 // state. It is checked on loop entry (inv-init) and on every back edge (inv-pres) for ALL references.
 func (c *Ctx) loopFrameHavoc(ct *Contract, names calleeNames, args []Val, before, st *State, reach string, pos token.Pos, ordinal int, allocKeys map[string]bool) {
+	c.frameLocals = true
+	defer func() { c.frameLocals = false }()
 	// inv-init: the state reaching the loop satisfies the frame
-	c.groupedFrame("inv-init", fmt.Sprintf("loop%d/frame:", ordinal), ct, names, args, before, reach, pos, "frame holds on loop entry", true)
+	if !c.skipFrameInit {
+		c.groupedFrame("inv-init", fmt.Sprintf("loop%d/frame:", ordinal), ct, names, args, before, reach, pos, "frame holds on loop entry", true)
+	}
 	items, ok := c.frameItems(ct, names, args, st)
 	if !ok {
 		return
@@ -624,6 +680,37 @@ func (w *World) verifyFn(fn *ssa.Function, sv *Solver, tier string) *FnResult {
 }
 
 // splitAnd splits a top-level SMT conjunction "(and a b c)" into its conjuncts.
+// splitDeep flattens nested conjunctions and distributes implications over them: (=> g (and A B)) gives (=> g A) and
+// (=> g B). The conjunction of the result is equivalent to f; each member becomes an obligation of its own.
+func splitDeep(f string) []string {
+	if strings.HasPrefix(f, "(and ") {
+		parts := splitAnd(f)
+		if len(parts) == 1 {
+			return parts
+		}
+		var out []string
+		for _, p := range parts {
+			out = append(out, splitDeep(p)...)
+		}
+		return out
+	}
+	if strings.HasPrefix(f, "(=> ") && strings.HasSuffix(f, ")") {
+		kids, _ := sexprChildren(f, 0)
+		if len(kids) == 3 {
+			g := f[kids[1][0]:kids[1][1]]
+			body := splitDeep(f[kids[2][0]:kids[2][1]])
+			if len(body) > 1 {
+				var out []string
+				for _, b := range body {
+					out = append(out, "(=> "+g+" "+b+")")
+				}
+				return out
+			}
+		}
+	}
+	return []string{f}
+}
+
 func splitAnd(f string) []string {
 	if !strings.HasPrefix(f, "(and ") || !strings.HasSuffix(f, ")") {
 		return []string{f}
